@@ -4,7 +4,7 @@ import os, re, subprocess
 V = os.path.dirname(os.path.dirname(os.path.abspath(__file__)))
 p = os.path.join(V, "DESIGN.md")
 s = open(p).read()
-for letters in ("EF", "GH", "IJ", "KL", "MN", "OP", "QR"):
+for letters in ("EF", "GH", "IJ", "KL", "MN", "OP", "QR", "ST"):
     t = subprocess.run(["python3", os.path.join(V, "lib", "seed_table.py"), letters], stdout=subprocess.PIPE, text=True).stdout
     s = re.sub(rf"<!-- TABLE {letters} -->.*?<!-- /TABLE {letters} -->", f"<!-- TABLE {letters} -->\n{t}<!-- /TABLE {letters} -->", s, flags=re.S)
 open(p, "w").write(s)
